@@ -52,6 +52,13 @@ for f in ('bn_cmp', 'bn_cmp_abs'):
     sig(f, [bn('a'), bn('b')], ret='int')
 sig('util_bits_dig', [sc('a', 'dig_t')], ret='size_t', headers=('relic.h',))
 
+# ---- division (contracts/bn_div.h)
+sig('bn_div_rem', [bn('c'), bn('d'), bn('a'), bn('b')])
+sig('bn_div', [bn('c'), bn('a'), bn('b')])
+sig('bn_mod_basic', [bn('c'), bn('a'), bn('m')])
+sig('bn_div_dig', [bn('c'), bn('a'), sc('b', 'dig_t')])
+sig('bn_div_rem_dig', [bn('c'), ('po', 'd', 'dig_t'), bn('a'), sc('b', 'dig_t')])
+
 # ---- digit vectors
 for f in ('bn_addn_low', 'bn_subn_low'):
     sig(f, [dv('c', 'size', False), dv('a', 'size'), dv('b', 'size'), sc('size', 'size_t')], ret='dig_t')
